@@ -442,6 +442,8 @@ class Verifier(Engine):
             return VOpt(z3.BoolVal(False), v)
         # a definite value of another type than the declared one: the contract does not describe this call (assuming
         # its postcondition would be unsound, e.g. `self.f == arg` between a str field and an object is just False)
+        if isinstance(v, VList) and v.ek == 'any' and kind.startswith('list:'):
+            return VList(v.t, kind[5:])          # an empty list literal takes the declared element kind
         base = kind.split(':')[0]
         want = {'str': (VStr,), 'int': (VInt, VBool), 'bool': (VBool,), 'pos': (VTuple,), 'ref': (VRef, VNoneT, VPy),
                 'list': (VList, VRef, VNoneT)}.get(base)
@@ -756,6 +758,11 @@ class Verifier(Engine):
 
     def st_Assign(self, st, s):
         v = self.ev.ev(st, s.value)
+        if isinstance(v, VList) and v.ek == 'any' and len(s.targets) == 1 and isinstance(s.targets[0], ast.Name):
+            # an empty list literal bound to a local whose element kind the contract declares
+            kd = getattr(self.ctr, 'locals_', {}).get(s.targets[0].id)
+            if kd and kd.startswith('list:'):
+                v = VList(v.t, kd[5:])
         outs = self.split_pend(st)
         for t in s.targets:
             self.assign(st, t, v)
@@ -838,7 +845,20 @@ class Verifier(Engine):
         cur = self.ev.ev(st, s.target)
         rhs = self.ev.ev(st, s.value)
         if isinstance(cur, VList) and isinstance(s.op, ast.Add):
-            raise OutOfSubset('list +=')
+            # in-place extend: the same list object grows by the elements of the right-hand side
+            if not isinstance(rhs, VList) or (rhs.ek != cur.ek and 'any' not in (rhs.ek, cur.ek)):
+                raise OutOfSubset('list += %s' % kind_of(rhs))
+            outs = self.split_pend(st)
+            n, m = st.llen(cur.t), st.llen(rhs.t)
+            old = st.larr(cur.t, cur.ek)
+            src = st.larr(rhs.t, cur.ek)
+            k = z3.Int(fresh_name('k'))
+            new = z3.Const(fresh_name('ext'), old.sort())
+            st.pc.append(smt.forall([k], z3.Select(new, k) == z3.If(k < n, z3.Select(old, k), z3.Select(src, k - n)),
+                                    patterns=[z3.Select(new, k)]))
+            st.lset_all(cur.t, new, cur.ek)
+            st.wr('$len', cur.t, n + m)
+            return outs + [Outcome('ok', st)]
         v = self.ev.binop(st, s.op, cur, rhs)
         outs = self.split_pend(st)
         self.assign(st, s.target, v)
